@@ -7,7 +7,7 @@ def key(d):
 for d in sorted(glob.glob('/verif/seeded/*'),key=key):
     n=os.path.basename(d); m=json.load(open(d+'/meta.json'))
     if m.get('benign'):
-        ben+=1; rows.append(f"| {n} | {m['property']} | benign: stays quiet | {m['what']} | {m['confirmed']} |"); continue
+        ben+=1; rows.append(f"| {n} | {m['property']} | benign: {'stays quiet' if m.get('expected_verdict','no')=='no' else 'load error (exit 2)'} | {m['what']} | {m['expected']} |"); continue
     if m.get('status')=='discarded':
         disc+=1; rows.append(f"| {n} | {m['breaks_property']} | discarded | {m['reason'][:160]} | |"); continue
     c='yes' if m['detected_by_check'] else 'NO'
